@@ -23,6 +23,7 @@ import (
 
 type ioCase struct {
 	Msize    uint32 `json:"msize"`
+	IOUnit   uint32 `json:"iounit,omitempty"` // what the backend's Open announces; has no bearing on the limits
 	FileSize uint64 `json:"file_size"`
 	Op       string `json:"op"` // read | write
 	Len      int    `json:"len"`
@@ -42,6 +43,7 @@ func initialByte(off uint64) byte { return byte(off) ^ byte(off>>7) ^ byte(off>>
 
 func runIOCase(c ioCase, st *ioStats) *fail {
 	fs := memfs.New(memfs.Options{NativeWalkGetAttr: true})
+	fs.IOUnit = c.IOUnit
 	f0, _ := fs.Tree.Create(fs.Tree.Root, "f", 0o644, 0, 0)
 	// initial content: a recognisable pattern in the first and last 64 KiB windows, zeros between
 	initAt := func(off uint64) byte {
@@ -258,6 +260,7 @@ func genIOCase(rt *rapid.T) ioCase {
 	lfs := p9.VerifLargestFixedSize()
 	c := ioCase{ShortAt: -1, ErrAt: -1, Salt: rapid.Byte().Draw(rt, "salt"), Op: rapid.SampledFrom([]string{"read", "write"}).Draw(rt, "op")}
 	c.Msize = rapid.SampledFrom([]uint32{lfs + 1, lfs + 2, lfs + 100, 512, 1000, 4096, 65536, 1 << 20}).Draw(rt, "msize")
+	c.IOUnit = rapid.SampledFrom([]uint32{0, 0, 1, 100, 512, 4096, 8192, 65536, 1 << 20, 1 << 31, 1<<32 - 1}).Draw(rt, "iounit")
 	// the client's payload size, for choosing interesting lengths only (the
 	// oracle does not depend on it)
 	payload := int(c.Msize - lfs)
